@@ -78,17 +78,19 @@ def replaceGlobalSplits (dflt : Aff) (order : List Aff → List Aff) (rows : Lis
     let affs := if affs.isEmpty then [dflt] else affs
     some (expandSplits affs rows)
 
+/-- What is computed for one security from its (sorted) rows: a split-validation failure is an
+    error of that security alone, with no rows. -/
+def secResultSorted (dflt : Aff) (order : List Aff → List Aff) (init : Option Status)
+    (sortedRowsS : List PRow) : List Delta × Option Failure :=
+  match replaceGlobalSplits dflt order sortedRowsS with
+  | none => ([], some (.err .splitConflict))
+  | some txs => deltaList dflt init txs
+
 /-- `run_acb_app_to_delta_models`: per security (in order of first appearance in the sorted
-    rows; the Rust result is a HashMap) the deltas and the failure, if any.  A split-validation
-    failure is an error of that security alone, with no rows. -/
+    rows; the Rust result is a HashMap) the deltas and the failure, if any. -/
 def runPipeline (dflt : Aff) (order : Nat → List Aff → List Aff) (inits : Nat → Option Status)
     (rows : List PRow) : List (Nat × List Delta × Option Failure) :=
   let sorted := sortRows rows
-  (secsOf sorted).map (fun s =>
-    match replaceGlobalSplits dflt (order s) (rowsOf s sorted) with
-    | none => (s, [], some (.err .splitConflict))
-    | some txs =>
-      let r := deltaList dflt (inits s) txs
-      (s, r.1, r.2))
+  (secsOf sorted).map (fun s => (s, secResultSorted dflt (order s) (inits s) (rowsOf s sorted)))
 
 end Acb
